@@ -2,6 +2,8 @@
 package c12
 
 import (
+	"bytes"
+	"sort"
 	"strings"
 	"testing"
 
@@ -101,6 +103,96 @@ func check(c Case) (o ev.Outcome) {
 	o.NonTrivial = (explicit > 0 || output > 0) && (foreignCopies > 0 || subContent > 0)
 	ev.Guard(&o, "compare", func() {
 		schema.CompareModules(&o, c.Set, obs, trees, canon.DiffOpts{NS: true, ReadOnly: true}, "C12", "derived-attributes")
+	})
+	if len(o.Violations) > 0 {
+		return o
+	}
+	// The same facts through other doors. (1) The tree of a submodule taken on its own: content written in a
+	// submodule belongs to the owning module, by namespace and by instantiating module. (2) The rendering of a
+	// module tree marks every node RO or rw: the marks, in print order, are the read-only states of the nodes.
+	ev.Guard(&o, "secondary observation points", func() {
+		for _, m := range c.Set.Modules {
+			if !m.IsSub {
+				continue
+			}
+			owner := c.Set.Find(m.BelongsTo)
+			sm := obs.MS.SubModules[m.Name]
+			if owner == nil || sm == nil {
+				continue
+			}
+			var walk func(e *yang.Entry) bool
+			walk = func(e *yang.Entry) bool {
+				if e.Parent != nil {
+					if ns := e.Namespace(); ns == nil || ns.Name != owner.Namespace {
+						o.Violate("namespace", "C12/submodule-tree/namespace", "tree of submodule %s taken on its own: %s reports namespace %v, the owning module's is %s", m.Name, e.Path(), ns, owner.Namespace)
+						return false
+					}
+					if im, err := e.InstantiatingModule(); err != nil || im != owner.Name {
+						o.Violate("instantiating-module", "C12/submodule-tree/instantiating-module", "tree of submodule %s taken on its own: %s reports instantiating module %q (%v), the owning module is %s", m.Name, e.Path(), im, err, owner.Name)
+						return false
+					}
+				}
+				names := make([]string, 0, len(e.Dir))
+				for k := range e.Dir {
+					names = append(names, k)
+				}
+				sort.Strings(names)
+				for _, k := range names {
+					if !walk(e.Dir[k]) {
+						return false
+					}
+				}
+				return true
+			}
+			if !walk(yang.ToEntry(sm)) {
+				return
+			}
+		}
+		for _, m := range c.Set.Modules {
+			t := trees[m.Name]
+			mm := obs.MS.Modules[m.Name]
+			if m.IsSub || t == nil || t.Root == nil || mm == nil {
+				continue
+			}
+			var want []bool
+			var names []string
+			var wwalk func(x *yref.XNode, top bool)
+			wwalk = func(x *yref.XNode, top bool) {
+				want = append(want, x.ReadOnly)
+				names = append(names, x.Name)
+				keys := make([]string, 0, len(x.Children))
+				for k := range x.Children {
+					keys = append(keys, k)
+				}
+				sort.Strings(keys)
+				for _, k := range keys {
+					wwalk(x.Children[k], false)
+				}
+			}
+			wwalk(t.Root, true)
+			var buf bytes.Buffer
+			yang.ToEntry(mm).Print(&buf)
+			var got []bool
+			for _, ln := range strings.Split(buf.String(), "\n") {
+				ln = strings.TrimLeft(ln, " ")
+				switch {
+				case strings.HasPrefix(ln, "RO: "):
+					got = append(got, true)
+				case strings.HasPrefix(ln, "rw: "):
+					got = append(got, false)
+				}
+			}
+			if len(got) != len(want) {
+				continue // another shape than the reference's: not this clause
+			}
+			o.Class("rendering-marks-compared")
+			for i := range want {
+				if got[i] != want[i] {
+					o.Violate("read-only", "C12/rendering/read-only-mark", "rendering of module %s: node #%d in print order (%s) is marked read-only=%v, it is %v", m.Name, i, names[i], got[i], want[i])
+					return
+				}
+			}
+		}
 	})
 	return o
 }
